@@ -115,6 +115,7 @@ func init() {
 		scopes := []scope{
 			{"handshake", [][3]string{{"internal/handshake", "TokenGenerator", "DecodeToken"}, {"internal/handshake", "sessionTicket", "Unmarshal"}, {"internal/handshake", "tokenProtector", "DecodeToken"}}, []string{"/internal/handshake"}, []string{"./internal/handshake/"}},
 			{"http3", [][3]string{{h3, "frameParser", "ParseNext"}, {h3, "", "ParseCapsule"}, {h3, "", "parseHeaders"}, {h3, "", "parseTrailers"}, {h3, "rawConn", "receiveDatagrams"}, {h3, "", "parseSettingsFrame"}}, []string{"/http3"}, []string{"./http3/"}},
+			{"unpacker", [][3]string{{"", "packetUnpacker", "UnpackLongHeader"}, {"", "packetUnpacker", "UnpackShortHeader"}, {"", "Transport", "maybeHandleStatelessReset"}, {"", "Conn", "handleOnePacket"}, {"", "Conn", "handleRetryPacket"}, {"", "Conn", "handleVersionNegotiationPacket"}, {"", "Conn", "handleShortHeaderPacket"}, {"", "Conn", "handleLongHeaderPacket"}, {"", "closedLocalConn", "handlePacket"}, {"", "baseServer", "handlePacketImpl"}, {"", "baseServer", "handleInitialImpl"}, {"", "baseServer", "handle0RTTPacket"}, {"", "Transport", "handlePacket"}}, []string{"NONE"}, []string{"."}},
 			{"sni", [][3]string{{"", "", "findSNIAndECH"}, {"", "initialCryptoStream", "Write"}, {"", "initialCryptoStream", "PopCryptoFrame"}}, []string{""}, []string{"."}},
 			{"uquic-builders", [][3]string{{"", "QUICFrames", "Build"}, {"", "QUICFrames", "BuildForDatagram"}, {"", "QUICRandomFrames", "Build"}, {"", "QUICFlightFrames", "BuildFlight"}, {"", "QUICRandomFlightFrames", "BuildFlight"}, {"", "uPacketPacker", "MarshalInitialPacketPayload"}, {"", "uPacketPacker", "planInitialFlight"}, {"", "uPacketPacker", "plannedInitialPayload"}}, []string{""}, []string{"."}},
 		}
@@ -137,6 +138,12 @@ func init() {
 				return false
 			}
 			fns := p.reachStatic(roots, inPkg)
+			if len(sc.pkgs) == 1 && sc.pkgs[0] == "NONE" {
+				fns = nil
+				for _, r := range roots {
+					fns = append(fns, withAnon(r)...)
+				}
+			}
 			unp, err := compilerUnproven(p.RepoDir, p.GOARCH, sc.build)
 			if err != nil {
 				fmt.Println(err)
